@@ -19,15 +19,27 @@ inductive Ex where
   | pow15 (a : Ex)                -- `f64::powf(1.5)`
   | sqrt (a : Ex) | sin (a : Ex) | cos (a : Ex) | acos (a : Ex) | ln (a : Ex)
   | atan2 (y x : Ex)              -- `y.atan2(x)`
+  | clamp1 (a : Ex)               -- `f64::clamp(-1., 1.)`
 deriving Repr, Inhabited
 
 /-- A straight-line program: `let` bindings (variable id, definition) in order, then outputs
 (slot id, expression). For a gradient body the slot is `3 * (position of the atom in the term) + axis`
-and the expression is what is added to that gradient component. -/
+and the expression is what is added to that gradient component.
+
+`guard`: the early return `if !(g > 0.) { return; }` of the bend gradients. When present, the body adds
+nothing at all unless the guard expression, evaluated in the environment after the `let`s, is `> 0`
+(the `let`s have no side effects, so it does not matter which of them the Rust code runs before returning). -/
 structure Prog where
   lets : List (Nat × Ex)
   outs : List (Nat × Ex)
+  guard : Option Ex := none
 deriving Repr, Inhabited
+
+/-- `f64::clamp(self, -1., 1.)`: `let mut x = self; if x < min { x = min } if x > max { x = max } x` — a NaN
+fails both comparisons and stays NaN. -/
+def clamp1F (x : Float) : Float :=
+  let x := if x < -1.0 then -1.0 else x
+  if x > 1.0 then 1.0 else x
 
 /-- compiler-rt's `__powidf2` (what `f64::powi` lowers to): square-and-multiply. -/
 def powiF (a : Float) (n : Nat) : Float :=
@@ -60,6 +72,7 @@ def evalF (ρ : Nat → Float) : Ex → Float
   | acos a => Float.acos (evalF ρ a)
   | ln a => Float.log (evalF ρ a)
   | atan2 y x => Float.atan2 (evalF ρ y) (evalF ρ x)
+  | clamp1 a => clamp1F (evalF ρ a)
 
 end Ex
 
@@ -75,10 +88,14 @@ namespace Prog
 def runLetsF (base : Nat → Float) (lets : List (Nat × Ex)) : List (Nat × Float) :=
   lets.foldl (fun binds (v, e) => (v, e.evalF (envF base binds)) :: binds) []
 
-/-- The outputs at doubles: (slot, value). -/
+/-- The outputs at doubles: (slot, value). With a guard whose value is not `> 0` (a NaN included) the body
+returned early: no contributions at all. -/
 def runF (p : Prog) (base : Nat → Float) : List (Nat × Float) :=
   let env := envF base (runLetsF base p.lets)
-  p.outs.map fun (s, e) => (s, e.evalF env)
+  let go : Bool := match p.guard with
+    | some g => decide (g.evalF env > 0.0)
+    | none => true
+  if go then p.outs.map fun (s, e) => (s, e.evalF env) else []
 
 end Prog
 end OptRs
